@@ -6,6 +6,7 @@ import (
 	"fmt"
 	"os"
 	"strings"
+	"sync/atomic"
 
 	"github.com/bluenviron/gortsplib/v5/pkg/description"
 	"github.com/bluenviron/gortsplib/v5/pkg/format"
@@ -53,12 +54,16 @@ func (AllowAll) Authenticate(*auth.Request) (string, *auth.Error) { return "u", 
 type Pub struct {
 	Logger
 	ID     string
-	Closed bool
+	closed atomic.Bool
 }
 
-// Close is called by the path when the publisher is kicked/replaced.
+// Closed reports whether Close was called.
+func (p *Pub) Closed() bool { return p.closed.Load() }
+
+// Close is called by the path when the publisher is kicked/replaced (like the real sessions' Close it is
+// safe for concurrent use).
 func (p *Pub) Close() {
-	p.Closed = true
+	p.closed.Store(true)
 	vsched.Log("close %s", p.ID)
 }
 
@@ -71,18 +76,19 @@ func (p *Pub) APISourceDescribe() *defs.APIPathSource {
 type Rdr struct {
 	Logger
 	ID      string
-	Closed  bool
+	closed  atomic.Bool
 	OnClose func()
 }
 
-// Close is called by the path when the stream goes away.
+// Closed reports whether Close was called.
+func (r *Rdr) Closed() bool { return r.closed.Load() }
+
+// Close is called by the path when the stream goes away (safe for concurrent use, like the real sessions').
 func (r *Rdr) Close() {
 	vsched.Log("close %s", r.ID)
-	if !r.Closed && r.OnClose != nil {
-		r.Closed = true
+	if r.closed.CompareAndSwap(false, true) && r.OnClose != nil {
 		r.OnClose()
 	}
-	r.Closed = true
 }
 
 // APIReaderDescribe implements defs.Reader.
